@@ -22,6 +22,7 @@ type KnownFinding struct {
 	Property   string `json:"property"`
 	Obligation string `json:"obligation"`
 	Region     string `json:"region,omitempty"` // contract expression over the function's entry state
+	Prefix     bool   `json:"prefix,omitempty"` // `obligation` is a prefix: the finding covers the obligations of that function and kind wherever an edit moves them (ordinals, inlined helpers)
 	Text       string `json:"text"`
 	Commit     string `json:"commit,omitempty"`
 }
@@ -308,7 +309,7 @@ func checkMain(args []string) int {
 		handled := false
 		for i := range known {
 			k := &known[i]
-			if k.Kind != "known" || !propListed(k.Property, id) || k.Obligation != o.Name {
+			if k.Kind != "known" || !propListed(k.Property, id) || (k.Obligation != o.Name && !(k.Prefix && strings.HasPrefix(o.Name, k.Obligation))) {
 				continue
 			}
 			if k.Region == "" {
